@@ -20,6 +20,13 @@ func vcol(name, base string, notNull bool) *Column {
 
 // infoSchema synthesises INFORMATION_SCHEMA.COLUMNS / STATISTICS / TABLES from
 // the catalog (the queries of pkg/datasource/sql/datasource/mysql/trigger.go).
+func (s *Server) schemaOf(t *Table) string {
+	if t.Schema != "" {
+		return t.Schema
+	}
+	return s.Schema
+}
+
 func (s *Server) infoSchema(name string) *Table {
 	names := make([]string, 0, len(s.tables))
 	for n := range s.tables {
@@ -80,7 +87,7 @@ func (s *Server) infoSchema(name string) *Table {
 				if c.NotNull {
 					nullable = "NO"
 				}
-				t.rows = append(t.rows, &row{vals: []Value{StrV("def"), StrV(s.Schema), StrV(tb.Name), StrV(c.Name), IntV(int64(i + 1)), def,
+				t.rows = append(t.rows, &row{vals: []Value{StrV("def"), StrV(s.schemaOf(tb)), StrV(tb.Name), StrV(c.Name), IntV(int64(i + 1)), def,
 					StrV(nullable), StrV(c.Type.DataType()), StrV(c.Type.ColumnTypeText()), StrV(key), StrV(extra), StrV("")}})
 			}
 		}
@@ -94,8 +101,8 @@ func (s *Server) infoSchema(name string) *Table {
 			tb := s.tables[n]
 			for _, ix := range tb.Indexes {
 				for seq, ci := range ix.Cols {
-					t.rows = append(t.rows, &row{vals: []Value{StrV("def"), StrV(s.Schema), StrV(tb.Name), IntV(int64(b2i(!ix.Unique))),
-						StrV(s.Schema), StrV(ix.Name), IntV(int64(seq + 1)), StrV(tb.Cols[ci].Name), StrV("BTREE")}})
+					t.rows = append(t.rows, &row{vals: []Value{StrV("def"), StrV(s.schemaOf(tb)), StrV(tb.Name), IntV(int64(b2i(!ix.Unique))),
+						StrV(s.schemaOf(tb)), StrV(ix.Name), IntV(int64(seq + 1)), StrV(tb.Cols[ci].Name), StrV("BTREE")}})
 				}
 			}
 		}
@@ -104,7 +111,7 @@ func (s *Server) infoSchema(name string) *Table {
 		t := vtable("TABLES", vcol("TABLE_CATALOG", "VARCHAR", true), vcol("TABLE_SCHEMA", "VARCHAR", true), vcol("TABLE_NAME", "VARCHAR", true),
 			vcol("TABLE_TYPE", "VARCHAR", true))
 		for _, n := range names {
-			t.rows = append(t.rows, &row{vals: []Value{StrV("def"), StrV(s.Schema), StrV(s.tables[n].Name), StrV("BASE TABLE")}})
+			t.rows = append(t.rows, &row{vals: []Value{StrV("def"), StrV(s.schemaOf(s.tables[n])), StrV(s.tables[n].Name), StrV("BASE TABLE")}})
 		}
 		return t
 	}
